@@ -9,7 +9,7 @@
 From Coq Require Import String List Reals.
 Import ListNotations.
 From Coq Require Import ZArith.
-From FV.C17 Require Import Model ProofsSym ProofsPoly ProofsEig ProofsAlign ProofsPlace ProofsBind AlignEntry ProofsEntry ProofsIdem.
+From FV.C17 Require Import Model ProofsSym ProofsPoly ProofsEig ProofsAlign ProofsPlace ProofsBind AlignEntry ProofsEntry ProofsIdem AlignDtype.
 From FV.C17.gen Require Import TensorIdx AlignCfg.
 Open Scope R_scope.
 
@@ -215,6 +215,24 @@ Theorem C17_align_nnz_decisions :
   keys_are_int64 = true /\ union_indices_sorted = true /\ values_accumulated_with_add_at = true /\
   shapes_checked = true /\ non_csr_inputs_converted_with_tocsr = true.
 Proof. repeat split; reflexivity. Qed.
+
+(* the loop over the inputs and the construction of the result, as read from the source:
+   data = np.zeros(len(union keys)), one csr_matrix((data, union.indices, union.indptr),
+   shape=union.shape) appended per input in input order, that list returned - what
+   AlignEntry.align_core / align_nnz_entry model by `map (place_rc .. U)` and `mk_spm CSR` *)
+Theorem C17_align_nnz_result_construction :
+  data_zero_initialised_on_union = true /\ outputs_on_union_pattern = true /\
+  one_output_per_input_in_order = true.
+Proof. repeat split; reflexivity. Qed.
+
+(* dtype of the returned data (translated expression `result_dtype`): float64 data is stored
+   unconverted, and every int32 / float32 / float64 value is a value of the dtype it is stored
+   in (nothing is rounded on the way into the result; int64 -> float64 beyond 2^53 is outside
+   the property's float inputs) *)
+Theorem C17_align_nnz_result_dtype :
+  result_dtype F64 = F64 /\
+  forall d, d <> I64 -> embeds_exactly d (result_dtype d) = true.
+Proof. split; [reflexivity|]. intros d H. destruct d; try reflexivity; congruence. Qed.
 
 (* ---- no in-place write reaches a caller-owned array (translator's
         conservative alias summary; object identity itself is checked by the
